@@ -415,6 +415,12 @@ def gibbs_joint(rec, ctx=None):
         x = LMRF(0, scale=lambda d: 1 / d, geometry=n, name="x")
         y = Gaussian(mk_model()(x), 0.3, name="y")
         J = JointDistribution(*_perm(rec, [y, x, d]))(y=yobs)
+    elif shape == "x_s_w":      # as x_s plus an independent block w (its conditional is a plain distribution: Direct)
+        s = Gamma(1.0, 1e-1, name="s")
+        x = Gaussian(np.zeros(n), 1.0, name="x")
+        w = Gaussian(np.zeros(2), 0.7, name="w")
+        y = Gaussian(mk_model()(x), cov=lambda s: 1 / s, name="y")
+        J = JointDistribution(*_perm(rec, [y, x, s, w]))(y=yobs)
     elif shape == "x_d_a":      # three levels: the Gamma hyper-prior of d depends on another sampled block a
         a = Gamma(2.0, 1.0, name="a")
         d = Gamma(1.0, rate=lambda a: a, name="d")
@@ -442,6 +448,7 @@ GIBBS_SHAPES = {
     "x_d_lmrf": {"x": ["UGLA", "MH", "CWMH"], "d": ["ConjugateApprox", "MH"]},
     "x_z_s": {"x": ["MH", "CWMH"], "z": ["MH", "CWMH"], "s": ["Conjugate", "MH"]},
     "x_d_a": {"x": ["LinearRTO", "MH"], "d": ["Conjugate", "Conjugate", "MH"], "a": ["MH"]},
+    "x_s_w": {"x": ["LinearRTO", "MH"], "s": ["Conjugate", "MH"], "w": ["Direct", "Direct", "MH"]},
 }
 LEGACY_GIBBS_SHAPES = {
     "x_s": {"x": ["LinearRTO", "CWMH", "MH"], "s": ["Conjugate", "MH"]},
